@@ -144,7 +144,8 @@ def run(rep, tier, seed):
         for r in tr:
             if r["err"] <= 1.0:
                 a, b = r["t"], r["t"] + r["dt"]
-                inside = [c for (c, d, tm) in specs if d >= 0 and a < c < b]
+                # a zero exactly at the start of the step is seen by this step (the one that leaves it), one at its end by the next
+                inside = [c for (c, d, tm) in specs if d >= 0 and a <= c < b and c > t0]
                 if len(inside) >= 2:
                     multi_step = True
                 grid.add(b)
